@@ -763,6 +763,9 @@ func ngGenScript(rng *rand.Rand, npkt int, maxData int, allowTsOff bool, errors 
 		if sn := snaps[ifid]; sn != 0 && n > sn && !(errors && rng.Intn(12) == 0) {
 			n = rng.Intn(sn + 1)
 		}
+		if sn := snaps[ifid]; sn != 0 && sn <= 100 && rng.Intn(4) == 0 {
+			n = sn // capture length exactly the snap length
+		}
 		cl, ol := n, n
 		if rng.Intn(3) == 0 {
 			ol = n + rng.Intn(2000)
